@@ -242,7 +242,6 @@ func cmdList(args []string) {
 	}
 }
 
-func cmdCheck(args []string)    { fmt.Println("not yet"); os.Exit(2) }
 func cmdSelftest(args []string) { fmt.Println("not yet"); os.Exit(2) }
 func cmdLemmas(args []string) {
 	fs := flag.NewFlagSet("lemmas", flag.ExitOnError)
